@@ -1,8 +1,4 @@
 package hostile
 
-import "qedverif/lib"
-
 // Workers are child-process entry points (qv worker <name> args...).
 var Workers = map[string]func(args []string) int{}
-
-func RunC11(c *lib.Ctx) { c.Inconclusive("C11: check not built yet") }
